@@ -4,7 +4,7 @@ from . import common as C
 
 MANIFEST = dict(
    technique="Lean 4 proof (fromJS, a transcription of jsonschema/from.go over the JSON-Schema keyword AST, returns on every good document of a structured fragment J1 a schema that accepts exactly the valid instances; round trip as a corollary of C07; strict-mode theorems over a keyword table regenerated behaviourally from the code) + differential correspondence against FromJSONSchema/ParseAny, an independent validator on the original document and on the round-trip document, for generated documents over the whole documented keyword table incl. sibling keywords",
-   text="c11_equiv_partial: for every good document d of J1 (string/number with all bounds, multipleOf, pattern, listed formats, boolean, null, {}, true/false, arrays, closed tuples, objects with required properties and additionalProperties false/absent/schema, record objects, const, enum incl. mixed kinds, anyOf/oneOf/allOf, $ref), any strict flag and any strict-mode table: fromJS returns a schema s with jsValid d.doc x = acceptsDecoded s x for in-scope x. c11_roundtrip: on the closed, format-free part, jsValid (toDoc s) x = jsValid d.doc x (via C07). c11_enum_partial / c11_const_partial: const and enum with members of any scalar kind in any mixture (repeats, strings spelling other members' JSON text), validity by JSON equality jsonEq (Draft 2020-12: numbers by value, objects as maps, a string never equals the value it spells): the produced schema never panics and accepts exactly the instances equal to a member; c11_enum_members_accepted: no member is shadowed by another. c11_strict_rejects / c11_strict_silent / c11_strict_full_false over the regenerated keyword table. Each excluded class has a witness theorem and a replayed instance.",
+   text="c11_equiv_partial: for every good document d of J1 (string/number with all bounds, multipleOf, pattern, listed formats, boolean, null, {}, true/false, arrays, closed tuples, objects with required properties and additionalProperties false/absent/schema, record objects, const, enum incl. mixed kinds, anyOf/oneOf/allOf, $ref), any strict flag and any strict-mode table: fromJS returns a schema s with jsValid d.doc x = acceptsDecoded s x for in-scope x. c11_roundtrip: on the closed, format-free part, jsValid (toDoc s) x = jsValid d.doc x (via C07). c11_enum_partial / c11_const_partial: const and enum with members of any scalar kind in any mixture (repeats, strings spelling other members' JSON text), validity by JSON equality jsonEq (Draft 2020-12: numbers by value, objects as maps, a string never equals the value it spells): the produced schema never panics and accepts exactly the instances equal to a member; c11_enum_members_accepted: no member is shadowed by another; c11_enum_scalar_instance: ANY member list (arrays, objects, null included) judges every scalar instance correctly. c11_strict_rejects / c11_strict_silent / c11_strict_full_false over the regenerated keyword table. Each excluded class has a witness theorem and a replayed instance.",
    note="PARTIAL: outside good/J1 the pinned code violates the property (integer type, nullable unions, sibling keywords next to $ref/allOf/anyOf/oneOf/const/enum/format, keywords without type, open tuples, optional properties accepting null, required on the record path, open objects closed by the round trip, intersection semantics, strict mode silent/unreached keywords): open findings. Not modelled: recursive $ref (non-object cycles would overflow the stack in from.go), user regexes beyond the five emitted shapes, the round-trip document of const/enum with array/object members (their conversion and Parse behaviour IS modelled: fromEnumJ / parsePanicsJ, finding composite-literal, root documents only), format semantics (relative to a sample universe agreed on by gozod and the validator), round trip of format schemas. Trusted as for C07.",
    design="DESIGN.md §5 C11")
 
@@ -16,7 +16,7 @@ THEOREMS = ["Gozod.C11.c11_equiv_partial", "Gozod.C11.conv", "Gozod.C11.equivJ",
             "Gozod.C11.witness_format_siblings_dropped", "Gozod.C11.witness_tuple_items_all_required",
             "Gozod.C11.witness_optional_property_accepts_null", "Gozod.C11.witness_required_on_record_path",
             "Gozod.C11.witness_roundtrip_open_object", "Gozod.C11.witness_strict_unreached", "Gozod.C11.c11_full_false",
-            "Gozod.C11.c11_enum_partial", "Gozod.C11.c11_enum_members_accepted", "Gozod.C11.c11_const_partial",
+            "Gozod.C11.c11_enum_partial", "Gozod.C11.c11_enum_scalar_instance", "Gozod.C11.c11_enum_members_accepted", "Gozod.C11.c11_const_partial",
             "Gozod.C11.fromEnumJ_prims", "Gozod.C11.fromConstJ_prim", "Gozod.C11.enumValidJ_prims", "Gozod.C11.constValidJ_prim",
             "Gozod.C11.jsonEq_ofPrim", "Gozod.C11.jsonEq_str_left", "Gozod.C11.jsonEq_str_right", "Gozod.C11.scalars_no_panic",
             "Gozod.C11.witness_composite_member", "Gozod.C11.witness_composite_const", "Gozod.C11.c11_members_full_false"]
@@ -76,15 +76,11 @@ def make_key(known_keys, rejected):
         t = C.op_body(op).split(" ")
         why = [w for w in C.op_comment(op).replace("why=", "").split(",") if w]
         if t[1] == "kw": return "strict:" + t[2]
-        # A listed finding class is a region where the Lean model MIRRORS the defective behaviour (impl = model != spec).
-        # A disagreement with the specification that the model does not predict is never a listed finding, whatever
-        # classes the document belongs to.
-        if impl != M:
-            return "%s:unpredicted-by-model:%s" % (t[1], "+".join(w for w in why if w not in ("IN-EQ", "IN-RT")) or "none")
         if t[1] == "conv":
             o = impl.split(" ")
             if "panic" in o:
                 return "conv:literal-null-panics" if "( const n )" in op or " n " in op else "conv:panic"
+            if impl != M: return "conv:unpredicted-by-model"
             silent = sorted(set(n for n in other_names(op) if n not in rejected))
             for n in silent:
                 if known("strict:" + n): return "strict:" + n
@@ -96,6 +92,13 @@ def make_key(known_keys, rejected):
         if (d == "parse" and "IN-EQ" in why) or (d == "roundtrip" and "IN-RT" in why):
             return d + ":inside-theorem-fragment"       # never a listed finding
         why = [w for w in why if w not in ("IN-EQ", "IN-RT")]
+        # A listed finding class is a region where the Lean model MIRRORS the defective behaviour (impl = model != spec).
+        # A disagreement with the specification that the model does not predict is never a listed finding, whatever
+        # classes the document belongs to.  (One exception: `intersection` — allOf of object schemas with a strict side;
+        # Intersection's merging of unrecognized keys is C02/C07's open finding intersection-strict-objects and
+        # `accepts (.and l r)` of Model/JsonSchema does not mirror it.)
+        if impl != M and "intersection" not in why:
+            return d + ":unpredicted-by-model:" + ("+".join(why) or "none")
         for w in why:
             if known(d + ":" + w): return d + ":" + w
         return d + ":" + ("+".join(why) if why else "none")
